@@ -101,7 +101,7 @@ Proof.
         { exfalso; congruence. }
         { assert (Hnn : remove (sc_src (scalls st c)) (t_wants (trk st (sc_dt (scalls st c)))) <> []) by (intros X; rewrite X in Enil; discriminate).
           inv_split H. unfold put_scall.
-          constructor; cbn; auto; try (timeout 200 reg_clause).
+          constructor; cbn; auto; try reg_clause.
           all: try (end_b3 st c false hA1 hA3 hB3 Hpd Hne Hia Hmap).
           all: try (end_b4 st c hB2 hB4 Huniq).
         }
